@@ -374,13 +374,24 @@ INFO_LINES = {
 }
 
 
+def parse_vcf_text(text):
+    import io
+
+    return _parse_vcf_lines(io.StringIO(text))
+
+
 def parse_vcf(path):
+    opener = gzip.open if str(path).endswith(".gz") else open
+    with opener(path, "rt") as f:
+        return _parse_vcf_lines(f)
+
+
+def _parse_vcf_lines(f):
     """Independent line-oriented VCF reader.  Returns dict(header=[lines], samples=[...], records=[...]);
     a record is a dict with chrom, pos (1-based int), id, ref, alt (list), qual, filter, info (raw),
     format (list of keys), calls (list of dict key -> raw string; missing trailing keys absent)."""
-    opener = gzip.open if str(path).endswith(".gz") else open
     header, samples, records = [], [], []
-    with opener(path, "rt") as f:
+    if True:
         for line in f:
             line = line.rstrip("\n")
             if line.startswith("##"):
